@@ -1,6 +1,6 @@
-From RsdnsModel Require Import Base Cursor Names Labels Header Tracker RData Reader Client.
+From RsdnsModel Require Import Base Cursor Names Labels Header Tracker RData Reader Client Timed.
 From RsdnsModel.Spec Require Import NameText WireName.
-From RsdnsModel.Proofs Require Import NameOrder ClientProofs MessageRT AcceptComplete TimedProofs.
+From RsdnsModel.Proofs Require Import NameOrder ClientProofs MessageRT AcceptComplete TimedProofs TimedGeneral.
 From RsdnsModel.Properties Require Import C12.
 Open Scope N_scope.
 Check (C12_accept_sound : forall std id qname qtype qclass d fl,
@@ -39,4 +39,7 @@ Check (C12_filter_example : accept_datagram true 4660 [x61] 1 1 example_msg = Ok
   accept_datagram true 4660 [x62] 1 1 example_msg = Ok None /\
   accept_datagram true 4660 [x61] 28 1 example_msg = Ok None /\
   accept_datagram false 4660 [x61] 1 3 example_msg = Ok None).
-Print Assumptions C12_accept_sound. Print Assumptions C12_rejects_silently. Print Assumptions C12_filter_total. Print Assumptions C12_first_match. Print Assumptions C12_nothing_accepted. Print Assumptions C12_accepted_question_is_asked. Print Assumptions C12_genuine_response_accepted. Print Assumptions C12_filter_example.
+Check (C12_first_match_over_time : forall std smol q lifetime qt jit proc queue s d fl t rest,
+  exchange_of std smol q lifetime qt jit proc queue = (s, Ok (d, fl), t, rest) ->
+  exists pre ta, queue = pre ++ (ta, d) :: rest /\ Forall (rejected_by std q) pre /\ filter_of std q d = Ok (Some fl)).
+Print Assumptions C12_accept_sound. Print Assumptions C12_rejects_silently. Print Assumptions C12_filter_total. Print Assumptions C12_first_match. Print Assumptions C12_nothing_accepted. Print Assumptions C12_accepted_question_is_asked. Print Assumptions C12_genuine_response_accepted. Print Assumptions C12_filter_example. Print Assumptions C12_first_match_over_time.
